@@ -133,7 +133,8 @@ def _config_of(ch):
 def wrapper_facts(mod):
     """EVALUATED on the real classes: what `ChaperoneLoop` does to the Chaperone it is handed (construction; one healing
     run over a misfold followed by clean JSON), and what `BioAgent` constructs as its organelle.  None = not observable."""
-    facts = {"ctor_calls": None, "ctor_leaves": None, "heal_calls": None, "heal_leaves": None, "agent_default": None}
+    facts = {"ctor_calls": None, "ctor_leaves": None, "heal_calls": None, "heal_leaves": None, "agent_default": None,
+             "exports_same": None}
     try:
         from pydantic import BaseModel
         import operon_ai.healing.chaperone_loop as loop_mod
@@ -169,6 +170,22 @@ def wrapper_facts(mod):
                                   and ch.JSON_EXTRACTION_PATTERNS is mod.Chaperone.JSON_EXTRACTION_PATTERNS
                                   and ch.JSON_REPAIRS is mod.Chaperone.JSON_REPAIRS
                                   and ch.strategies is not ref.strategies)
+    except Exception:
+        pass
+    try:
+        import operon_ai as top
+        import operon_ai.organelles as org
+        import operon_ai.healing as heal
+        import operon_ai.healing.chaperone_loop as loop_mod
+        import operon_ai.core.types as types_mod
+        facts["exports_same"] = all([
+            top.Chaperone is mod.Chaperone, org.Chaperone is mod.Chaperone,
+            top.FoldingStrategy is mod.FoldingStrategy, org.FoldingStrategy is mod.FoldingStrategy,
+            top.EnhancedFoldedProtein is mod.EnhancedFoldedProtein, org.EnhancedFoldedProtein is mod.EnhancedFoldedProtein,
+            top.FoldedProtein is types_mod.FoldedProtein, mod.FoldedProtein is types_mod.FoldedProtein,
+            top.ChaperoneLoop is loop_mod.ChaperoneLoop, heal.ChaperoneLoop is loop_mod.ChaperoneLoop,
+            top.HealingResult is loop_mod.HealingResult, loop_mod.Chaperone is mod.Chaperone,
+            loop_mod.EnhancedFoldedProtein is mod.EnhancedFoldedProtein])
     except Exception:
         pass
     return facts
@@ -268,6 +285,9 @@ def generate(repo: Path, mod) -> str:
     out.append(f"def healCalls : Option (List String) := {names(wf.get('heal_calls'))}")
     out.append(f"def healLeavesConfig : Option Bool := {boolean(wf.get('heal_leaves'))}")
     out.append(f"def agentChaperoneIsDefault : Option Bool := {boolean(wf.get('agent_default'))}")
+    out.append("/-- `operon_ai`, `operon_ai.organelles`, `operon_ai.healing` export the very classes the modules define (Chaperone,")
+    out.append("    FoldingStrategy, FoldedProtein, EnhancedFoldedProtein, ChaperoneLoop, HealingResult), and the loop module uses them -/")
+    out.append(f"def exportsAreTheDefinitions : Option Bool := {boolean(wf.get('exports_same'))}")
     out.append("")
     out.append("end Operon.Gen.ChaperoneTables")
     return "\n".join(out) + "\n"
